@@ -31,7 +31,9 @@ KERNEL_SPECS = [
     ("cosine", "cosine", None, False),
     ("additive_chi2", "additive_chi2", None, True),
     ("chi2_g", "chi2", {"gamma": 0.5}, True),
+    ("poly_c0", "poly", {"degree": 2, "coef0": 0, "gamma": 0.5}, False),     # a zero-valued parameter that differs from the default
     ("callable", "callable", None, False),
+    ("pre_int", "precomputed", None, False),                                 # integer-typed symmetric matrix
     ("pre_psd", "precomputed", None, False),
     ("pre_indef", "precomputed", None, False),
 ]
@@ -44,6 +46,7 @@ METRIC_SPECS = [
     ("cosine", "cosine", None),
     ("pre_metric", "precomputed", None),
     ("pre_sym", "precomputed", None),
+    ("pre_intdist", "precomputed", None),                                    # integer-typed distances (hop counts)
 ]
 
 
@@ -73,6 +76,14 @@ def sym_matrix(n, seed, kind):
     if kind == "metric":                     # a genuine metric: shortest paths would be overkill; |a_i-a_j|+euclid
         Z = rs.normal(size=(n, 3))
         return np.sqrt(((Z[:, None] - Z[None]) ** 2).sum(2))
+    if kind == "int":                        # integer dtype, symmetric
+        M = rs.randint(-3, 6, size=(n, n))
+        return (M + M.T).astype(np.int64)
+    if kind == "intdist":                    # integer dtype distances, zero diagonal
+        M = rs.randint(1, 5, size=(n, n))
+        M = (M + M.T).astype(np.int64)
+        np.fill_diagonal(M, 0)
+        return M
     if kind == "symdist":                    # symmetric, zero diagonal, positive, not nec. triangle
         M = np.abs(B + B.T) + 0.2
         np.fill_diagonal(M, 0.0)
@@ -93,6 +104,9 @@ def kernel_reference(tag, X, seed):
     if tag == "pre_indef":
         A = sym_matrix(n, seed, "indef")
         return {"kernel": "precomputed"}, A, A
+    if tag == "pre_int":
+        A = sym_matrix(n, seed, "int")
+        return {"kernel": "precomputed"}, A, A.astype(float)
     ref = pairwise_kernels(X, metric=name, **(params or {}))
     kw = {"kernel": name}
     if params is not None:
@@ -110,6 +124,9 @@ def metric_reference(tag, X, seed):
     if tag == "pre_sym":
         A = sym_matrix(n, seed, "symdist")
         return {"metric": "precomputed"}, A, A
+    if tag == "pre_intdist":
+        A = sym_matrix(n, seed, "intdist")
+        return {"metric": "precomputed"}, A, A.astype(float)
     ref = pairwise_distances(X, metric=name, **(params or {}))
     kw = {"metric": name}
     if params is not None:
